@@ -511,7 +511,17 @@ def plan_rechunk(old_chunks, new_chunks, itemsize, threshold=None, block_size_li
     limited = []
     prev = old_chunks
     for step in steps:
-        limited.extend(_bound_degree(prev, step, degree_limit))
+        *interpolated, last = _bound_degree(prev, step, degree_limit)
+        if interpolated:
+            # Degree is pressure only: an interpolated step must not break the
+            # size budget the planner above just enforced.
+            largest_allowed = max(
+                block_size_limit if len(new_chunks) > 1 else block_size_limit / itemsize,
+                _largest_block_size(old_chunks),
+                _largest_block_size(new_chunks),
+            )
+            limited.extend(s for s in interpolated if _largest_block_size(s) <= largest_allowed)
+        limited.append(last)
         prev = step
     return limited
 
